@@ -34,7 +34,7 @@ RW=/tmp/reseed-$NAME
 git -C /repo worktree remove --force $RW 2>/dev/null
 git -C /repo worktree add -q $RW HEAD
 if git -C $RW apply $OUT/patch.diff; then
-  C=$(VERIF_REPO=$RW ./vr $PROP quick 2>&1 | grep -E "^VIOLATION|^  key=|^KNOWN|quick:|CHECK-ERROR|BUILD" | head -8)
+  C=$(VERIF_REPO=$RW ./vr $PROP quick 2>&1 | grep -E "^VIOLATION|^  key=|quick:|CHECK-ERROR|BUILD" | head -8)
 else
   C="PATCH-DOES-NOT-APPLY-TO-HEAD"
 fi
